@@ -171,6 +171,10 @@ def ref_score(obj, ovo, P, A):
     return val
 
 
+class OracleUnavailable(Exception):
+    pass
+
+
 def w1_lp(a, b, M):
     from scipy.optimize import linprog
     n = len(a)
@@ -179,6 +183,8 @@ def w1_lp(a, b, M):
         Aeq[i, i * n:(i + 1) * n] = 1
         Aeq[n + i, i::n] = 1
     res = linprog(M.ravel(), A_eq=Aeq[:-1], b_eq=np.concatenate([a, b])[:-1], bounds=(0, None), method="highs")
+    if res.status != 0 or res.fun is None:
+        raise OracleUnavailable(f"independent LP did not solve (status {res.status})")
     return float(res.fun)
 
 
@@ -193,3 +199,48 @@ def tangent_direction(rng, n, K):
     D = rng.normal(size=(n, K))
     D -= D.mean(1, keepdims=True)      # rows sum to zero: stays on the simplex
     return D / np.abs(D).max()
+
+
+def mmd_condition(P, A, eps, ovo):
+    """Condition number of the squared-distance computations of the MMD GEMINI (a difference of nearly equal
+    kernel quadratic forms under a square root): max over the distances of (sum of |terms|) / |result|.
+    Rounding in binary64 perturbs delta (and 1/delta in the gradient) by about u * n * C relatively, in the
+    implementation and in the model alike, so comparisons are widened by that amount."""
+    n = P.shape[0]
+    Pc = np.clip(P, eps, 1 - eps)
+    pi = Pc.mean(0, keepdims=True)
+    al = Pc / pi
+    nk = A / n ** 2
+    ga = nk @ al
+    C = 1.0
+    if ovo:
+        om = al.T @ ga
+        absom = np.abs(al).T @ (np.abs(nk) @ np.abs(al))
+        d = np.diag(om)
+        q = -2 * om + d[None, :] + d[:, None]
+        mag = 2 * absom + np.diag(absom)[None, :] + np.diag(absom)[:, None]
+        off = ~np.eye(len(q), dtype=bool)
+        with np.errstate(divide="ignore", invalid="ignore"):
+            r = np.where(np.abs(q) > 0, mag / np.abs(q), np.inf)
+        if off.any():
+            C = float(np.max(r[off]))
+    else:
+        a = (al * ga).sum(0); b = ga.sum(0); c = nk.sum()
+        mag = (np.abs(al) * (np.abs(nk) @ np.abs(al))).sum(0) + np.abs(nk).sum() + 2 * (np.abs(nk) @ np.abs(al)).sum(0)
+        q = a + c - 2 * b
+        with np.errstate(divide="ignore", invalid="ignore"):
+            r = np.where(np.abs(q) > 0, mag / np.abs(q), np.inf)
+        C = float(np.max(r))
+    return max(C, 1.0)
+
+
+def widen(obj, ovo, P, A, eps):
+    """Relative widening of float comparisons justified by the conditioning of the computation (1.0 = none);
+    returns (extra_rtol, ill) where ill means the case is too ill-conditioned to compare values at all."""
+    if obj != "mmd" or A is None:
+        return 0.0, False
+    C = mmd_condition(np.asarray(P, float), np.asarray(A, float), eps, ovo)
+    if not np.isfinite(C):
+        return 0.0, True
+    extra = 64 * P.shape[0] * 1.2e-16 * C
+    return extra, extra > 1e-3
